@@ -15,7 +15,7 @@ import os
 import vlib
 from vlib import enc_str, enc_list, dec_list, dec_str
 
-THEOREMS = ["C09_roundtrip", "C09_rebind", "C09_Q_refuted", "C09_Q2_refuted", "C09_H_refuted", "C09_NL_refuted",
+THEOREMS = ["C09_roundtrip", "C09_safe_simple", "C09_roundtrip_simple", "C09_rebind", "C09_Q_refuted", "C09_Q2_refuted", "C09_H_refuted", "C09_NL_refuted",
             "C09_D_refuted", "C09_P_refuted", "C09_B_refuted", "C09_E_refuted", "C09_W_refuted", "C09_nonvacuous"]
 POSITIONS = ["direct", "if", "elseif", "while", "not", "alias", "alias-with-first-argument-stored"]
 CMD = "capture"
@@ -88,16 +88,16 @@ def rand_value(rng, safe_bias):
 
 
 def outcome(ck, cands):
-    """for candidate (extra, args): (in_domain, classes, model_call, [7 implementation results])"""
+    """for candidate (extra, args): (in_domain, classes, model_call, [7 implementation results], all arguments safe_simple)"""
     if not cands:
         return []
     m = [o.split("\t") for o in ck.model([model_line(e, a) for e, a in cands])]
     i = ck.impl([impl_line(e, a) for e, a in cands])
-    return [(f[0] == "T", f[1], f[2], r.split(" ")) if len(f) == 4 else (False, "?", "?", r.split(" ")) for f, r in zip(m, i)]
+    return [(f[0] == "T", f[1], f[2], r.split(" "), f[4] == "T") if len(f) == 5 else (False, "?", "?", r.split(" "), False) for f, r in zip(m, i)]
 
 
 def failing(args, res):
-    dom, _cls, _call, r = res
+    dom, _cls, _call, r, _simple = res
     exp = expected(args)
     return dom and any(x != exp for x in r if x != "-")
 
@@ -122,6 +122,21 @@ def shrink(ck, extra, args):
     return extra, args
 
 
+def replay(ck, data):
+    """bin/vcheck C09 --replay <file>: re-run the single case of a replay file in all seven positions"""
+    ck.ocaml_build()
+    ck.harness_build(["c09"])
+    extra, args = data.get("extra_variables", {}), data["arguments"]
+    (dom, cls, call, r, _s), = outcome(ck, [(extra, args)])
+    print("arguments=%r extra_variables=%r\nin_domain=%s classes=%s model=%s" % (args, extra, dom, cls, call))
+    for p, x in zip(POSITIONS, r):
+        print("  %-34s %s" % (p, x if not x.startswith("A") else dec_list(x[1:].replace(",", " "))))
+    exp = expected(args)
+    same = all(x == exp for x in r if x != "-")
+    print("REPLAY: " + ("received unchanged in every position" if same else "still changed" + ("" if dom else " (the case is in an unsafe class: known finding)")))
+    return 1 if failing(args, (dom, cls, call, r, _s)) else 0
+
+
 def run(ck):
     ck.gen_from_source()
     ck.coq_build(["props/C09.vo", "extract/C09_extract.vo"])
@@ -134,17 +149,6 @@ def run(ck):
     thorough = ck.tier == "thorough"
     rng = ck.rng
     fixed = {k.get("id") for k in ck.known_db if k.get("property") == "C09" and str(k.get("status", "")).startswith("fixed")}
-
-    if ck.replay:
-        rp = json.load(open(ck.replay))
-        extra, args = rp["extra_variables"], rp["arguments"]
-        (dom, cls, call, r), = outcome(ck, [(extra, args)])
-        print("replay: arguments=%r in_domain=%s classes=%s model=%s" % (args, dom, cls, call))
-        for p, x in zip(POSITIONS, r):
-            print("  %-34s %s" % (p, x if not x.startswith("A") else dec_list(x[1:].replace(",", " "))))
-        if failing(args, (dom, cls, call, r)):
-            ck.violation(rp)
-        return
 
     cases = []   # (extra env, args, tag)
     for c, (_id, _txt, w) in KF.items():
@@ -193,13 +197,13 @@ def run(ck):
         res = outcome(ck, [(e, a) for (e, a, _t) in cases])
         dist = {"tags": {}, "classes_of_cases": {}, "class_letters": {}, "args": {}, "in_domain_argument_shapes": {}}
         nontriv = set()
-        n_dom = n_unsafe = n_unsafe_same = 0
+        n_dom = n_unsafe = n_unsafe_same = n_beyond_simple = 0
         unsafe_by_letter_differs = {}
         model_agree = model_total = 0
         viol = []
         printed = set()
         harness_bad = []
-        for k, ((extra, args, tag), (dom, cls, call, r)) in enumerate(zip(cases, res)):
+        for k, ((extra, args, tag), (dom, cls, call, r, simple)) in enumerate(zip(cases, res)):
             dist["tags"][tag] = dist["tags"].get(tag, 0) + 1
             exp = expected(args)
             if cls in ("?", "INCONSISTENT"):
@@ -234,6 +238,8 @@ def run(ck):
                 continue
             # the theorem's domain (or classes declared fixed)
             n_dom += 1
+            if not simple:
+                n_beyond_simple += 1
             dist["args"][len(args)] = dist["args"].get(len(args), 0) + 1
             for a in args:
                 sh = "empty" if a == "" else ("quoted" if " " in a else "bare")
@@ -252,7 +258,7 @@ def run(ck):
                 e2, a2 = shrink(ck, extra, args)
                 if (e2, a2) != (extra, args):
                     extra, args, tag = e2, a2, tag + " (shrunk)"
-            (dom, cls, call, r), = outcome(ck, [(extra, args)])
+            (dom, cls, call, r, _s), = outcome(ck, [(extra, args)])
             ck.violation({"kind": "argument values changed by a wrapper (in-domain: every argument safe, head_ok, last_ok)",
                           "arguments": args, "extra_variables": extra, "classes": cls,
                           "received": {p: (dec_list(x[1:].replace(",", " ")) if x.startswith("A") else x) for p, x in zip(POSITIONS, r)},
@@ -270,6 +276,7 @@ def run(ck):
             "evaluations": len(cases) * 7,
             "cases": len(cases),
             "in_domain_cases": n_dom,
+            "in_domain_cases_outside_the_simple_syntactic_classes": n_beyond_simple,
             "unsafe_class_cases": n_unsafe,
             "unsafe_class_cases_received_unchanged_anyway": n_unsafe_same,
             "unsafe_class_cases_differing_by_class_letter": unsafe_by_letter_differs,
